@@ -395,7 +395,11 @@ func runC07(seed int64, tier string, outDir string) *result {
 		out := make([]string, n)
 		for i := range out {
 			nfake++
-			out[i] = fakeCid(fmt.Sprintf("c07-%d-%d", seed, nfake)).String()
+			c := fakeCid(fmt.Sprintf("c07-%d-%d", seed, nfake))
+			if nfake%4 == 0 {
+				c = cid.NewCidV0(c.Hash()) // links to blocks of the legacy pb codec are CIDv0 ("Qm...")
+			}
+			out[i] = c.String()
 		}
 		return out
 	}
